@@ -1776,7 +1776,10 @@ class LoopExpression(Expression):
 
     def _to_iter(self, obj: object) -> tuple[Iterator[Any], int]:
         if isinstance(obj, Mapping):
-            return iter(obj.items()), len(obj)
+            # A snapshot: the loop body can add keys to a mapping that creates
+            # missing items on look-up (collections.defaultdict).
+            items = list(obj.items())
+            return iter(items), len(items)
         if isinstance(obj, range):
             return iter(obj), len(obj)
         if isinstance(obj, Sequence):
